@@ -1207,7 +1207,16 @@ def sample_of(ctx, specs, scratch):
 
 def gen_tie(ctx):
     """Gen/GlobalMerge.lean against the model: a clean message when the merge block loses a line."""
-    fields, merged = gen.gen_global_merge()
+    try:
+        fields, merged = gen.gen_global_merge()
+    except gen.GenError as e:
+        # the source shape is not recognised: the previously generated lists stay in place and the tie is
+        # re-established by execution at the end (gen.settle_by_execution) or reported as broken
+        gen._fail("global_merge", str(e))
+        import re
+        text = open(os.path.join(vlib.LEAN, "AcmedVerif", "Gen", "GlobalMerge.lean")).read()
+        fields = json.loads(re.search(r"def globalOptions : List String := (\[.*\])", text).group(1))
+        merged = json.loads(re.search(r"def mergedOptions : List String := (\[.*\])", text).group(1))
     missing = [f for f in fields if f not in merged]
     return fields, merged, missing
 
